@@ -7,6 +7,8 @@ package main
 import (
 	"fmt"
 	"os"
+
+	"github.com/coredhcp/coredhcp/logger"
 )
 
 type family struct {
@@ -20,6 +22,9 @@ func main() {
 	if len(os.Args) < 2 {
 		fmt.Fprintln(os.Stderr, "usage: harness <family> [flags]")
 		os.Exit(2)
+	}
+	if os.Getenv("VERIF_LOG") == "" {
+		logger.WithNoStdOutErr(logger.GetLogger("harness"))
 	}
 	f, ok := families[os.Args[1]]
 	if !ok {
